@@ -27,7 +27,10 @@ def cfg_text(maxboxes, maxops, view=True):
 def concretise(beh, rng, sid):
     lens = {"e": 0, "s": rng.choice(SHORT), "l": rng.choice(LONG)}
     steps = []
-    passes = {"p1": rng.choice(["correct horse", "p", "über-secret", "x" * 70]), "p2": rng.choice(["Correct horse", "q", "other", "x" * 71])}
+    p1 = rng.choice(["correct horse", "p", "über-secret", "x" * 70])
+    # the other passphrase: unrelated, or the same up to case / white space at the ends (still a DIFFERENT passphrase)
+    p2 = rng.choice(["Correct horse", "q", "other", "x" * 71, p1 + "\n", " " + p1, p1 + " ", "\t" + p1 + "\r\n", p1.upper() if p1.upper() != p1 else p1 + "."])
+    passes = {"p1": p1, "p2": p2}
     for op in beh:
         if op["op"] == "seal":
             steps.append({"op": "seal", "box": op["box"], "key": passes[op["key"]], "msg": "%s%d" % (op["msg"], lens[op["msg"]]), "fmt": op["fmt"], "via": op["via"], "len": lens[op["msg"]]})
